@@ -133,12 +133,15 @@ func (e *Env) DeleteGlobal(symbol string) {
 		return
 	}
 
-	e.rwMutex.RLock()
+	// check and delete under one lock, so concurrent calls can not both see the symbol here
+	e.rwMutex.Lock()
 	_, ok := e.values[symbol]
-	e.rwMutex.RUnlock()
+	if ok {
+		delete(e.values, symbol)
+	}
+	e.rwMutex.Unlock()
 
 	if ok {
-		e.Delete(symbol)
 		return
 	}
 
